@@ -29,8 +29,8 @@ static uint64_t unmasked(const ascon_masked_state_t *st, unsigned i)
 void h_masked_permute_asm(void)
 {
     ascon_masked_state_t st; uint64_t pres[VERIF_SHARES - 1]; unsigned i, k; spec_state u;   /* exactly the documented size: one word beyond is a failed bounds obligation */
-    __CPROVER_assert(sizeof(ascon_masked_word_t) == 32, "masked word layout assumed by the ghost macros (4 shares of 8 bytes)");
-    for (i = 0; i < 5; ++i) for (k = 0; k < 4; ++k) st.M[i].S[k] = nondet_u64();
+    __CPROVER_assert(sizeof(ascon_masked_word_t) == 8 * ASCON_MASKED_MAX_SHARES, "masked word layout assumed by the ghost macros (MAX_SHARES shares of 8 bytes)");
+    for (i = 0; i < 5; ++i) for (k = 0; k < ASCON_MASKED_MAX_SHARES; ++k) st.M[i].S[k] = nondet_u64();
     for (i = 0; i < VERIF_SHARES - 1; ++i) pres[i] = nondet_u64();
     for (i = 0; i < 5; ++i) u.x[i] = unmasked(&st, i);
     SET_T(0) SET_T(1) SET_T(2) SET_T(3) SET_T(4) SET_T(5) SET_T(6) SET_T(7) SET_T(8) SET_T(9) SET_T(10) SET_T(11) SET_T(12)
